@@ -60,7 +60,7 @@ pub fn exec_line(line: &str) -> Option<String> {
     if op == "c15-call" {
         return c15::exec_call(&mut t);
     }
-    if matches!(op, "rec-compare" | "tiebreak" | "probe-time" | "name-change" | "hostname-change" | "check-name" | "split-sub" | "escaped-labels") {
+    if matches!(op, "rec-compare" | "tiebreak" | "probe-time" | "probe-run" | "name-change" | "hostname-change" | "check-name" | "split-sub" | "escaped-labels") {
         return c08::exec(op, &mut t);
     }
     if matches!(op, "if-match" | "select" | "resolve-addr" | "select-at" | "valid-ip" | "addrs-on-intf") {
